@@ -177,154 +177,179 @@ def variantKeyLen (el : Label) (et : Ty) : Nat :=
     | _ => 7                 -- "newtype"
   base.1 + 1 + base.2 + 1 + accessor
 
+/-! The large branches of `deserialize_any`, each as a function of the recursive entry points (so that facts about
+one branch can be proved on its own). -/
+
+/-- `opt`: `add_cost(1)` was charged by the caller -/
+def deOptCase (env : Env) (fuel : Nat) (recv : Ty → Ty → St → R Val) (w e2 : Ty) (s1 : St) : R Val :=
+  match w with
+  | .prim .null | .prim .reserved => .ok .none s1
+  | .opt w2 =>
+    (match s1.input with
+     | [] => .err .eof
+     | b :: rest =>
+       if b = 0 then .ok .none { s1 with input := rest }
+       else if b = 1 then recv w2 e2 { s1 with input := rest }
+       else .err .malformed)
+  | _ =>
+    (match env.trace fuel e2 with
+     | none => .err .other
+     | some e2' => recv w e2' s1)
+
+/-- `vec` whose expected type is not a blob: `add_cost(1)` was charged by the caller -/
+def deVecCase (env : Env) (vis : Visitor) (fuel : Nat) (dAny : Ty → Ty → St → R Val) (dIgn : Ty → St → R Val)
+    (w ee : Ty) (s1 : St) : R Val :=
+  match w with
+  | .vec ww =>
+    (match env.trace fuel ww with
+     | none => .err .other
+     | some wire =>
+       (rd readLenDe s1).bind fun n s2 =>
+         match exactPrim ee wire with
+         | some p =>
+           let size := (primSize p).getD 1
+           if n * (3 + size) > usizeMax then .err .other else
+           (addCost s2 (n * (3 + size))).bind fun _ s3 =>
+             if n * size > s3.input.length then .err .eof
+             else (iterV (fun s => rd (decPrim p) s) n s3).map Val.vec
+         | none =>
+           let big : Option Prim := match ee, wire with
+             | .prim .nat, .prim .nat => some .nat
+             | .prim .int, .prim .int => some .int
+             | .prim .int, .prim .nat => some .nat
+             | _, _ => none
+           match big with
+           | some wp =>
+             if n * 3 > usizeMax then .err .other else
+             (addCost s2 (n * 3)).bind fun _ s3 =>
+               (iterV (fun s =>
+                 if wp = .nat then bigNum (natAs fun m => if ee = .prim .int then .int m else .nat m) s
+                 else bigNum intAs s) n s3).map Val.vec
+           | none =>
+             (iterV (fun s => (addCost s 3).bind fun _ s' =>
+               if vis = .ignored then dIgn wire s' else dAny wire ee s') n s2).map Val.vec)
+  | _ => subErr s1
+
+/-- `variant`: `add_cost(1)` was charged by the caller -/
+def deVariantCase (vis : Visitor) (dAny : Ty → Ty → St → R Val) (dIgn : Ty → St → R Val)
+    (w : Ty) (efs : Fields) (s1 : St) : R Val :=
+  match w with
+  | .variant wfs =>
+    (rd readLebCrate s1).bind fun idx s2 =>
+      match wfs.toList[idx]? with
+      | none => .err .malformed
+      | some (wl, wt) =>
+        match efs.toList.find? (fun p => p.1.getId = wl.getId) with
+        | none => subErr s2
+        | some (el, et) =>
+          (addCost s2 4).bind fun _ s3 =>
+            let keyCost := if s3.untyped then variantKeyLen el et else labelKeyCost el
+            (addCost s3 keyCost).bind fun _ s4 =>
+              let isUnit : Bool := match et with | .prim .null => true | _ => false
+              if vis = .idl ∧ isUnit then
+                -- unit_variant: check!(expect == Null && wire == Null)
+                (if wt = .prim .null then (addCost s4 1).map fun _ => .variant el .null 0
+                 else subErr s4)
+              else
+                (addCost s4 1).bind fun _ s5 =>
+                  if vis = .ignored then (dIgn wt s5).map fun _ => .null
+                  else (dAny wt et s5).map fun v => .variant el v 0
+  | _ => subErr s1
+
+/-- `func` reference: `check_subtype` was done by the caller -/
+def deFuncCase (w : Ty) (s1 : St) : R Val :=
+  match w with
+  | .func _ _ _ =>
+    (match s1.input with
+     | [] => .err .eof
+     | b :: rest =>
+       if b = 0 then .err .unsupported
+       else if b ≠ 1 then .err .malformed
+       else
+         (rd readPrincipal { s1 with input := rest }).bind fun pid s2 =>
+           (rd readLenDe s2).bind fun n s3 =>
+             (rd (takeN n) s3).bind fun m s4 =>
+               (addCost s4 (min (max 30 pid.length + n + 2) usizeMax)).bind fun _ s5 =>
+                 match utf8 m with
+                 | some name => .ok (.func pid name) s5
+                 | none => .err .malformed)
+  | _ => subErr s1
+
+/-- `vec` whose expected type is a blob -/
+def deBlobCase (env : Env) (w : Ty) (st : St) : R Val :=
+  if isBlobTy env w then (lenBytes st).map Val.blob
+  else match w with
+    | .vec _ =>
+      (rd readLenDe st).bind fun n s =>
+        if n ≠ 0 then subErr s else (addCost s 1).map fun _ => .blob []
+    | _ => subErr st
+
+/-- the dispatch of `deserialize_any` on the (unrolled) expected type, as a function of the recursive entry points -/
+def deAnyBody (env : Env) (vis : Visitor) (fuel : Nat) (dAny : Ty → Ty → St → R Val) (dIgn : Ty → St → R Val)
+    (dRec : Ty → Ty → St → R Val) (dFld : List FieldStep → St → List (Label × Val) → R Val)
+    (w e : Ty) (st : St) : R Val :=
+  match e with
+  | .prim .int =>
+    (match w with
+     | .prim .int => bigNum intAs st
+     | .prim .nat => bigNum (natAs fun n => .int n) st
+     | _ => subErr st)
+  | .prim .nat => if w = .prim .nat then bigNum (natAs Val.nat) st else subErr st
+  | .prim .nat8 => dePrimExact .nat8 1 w e st | .prim .nat16 => dePrimExact .nat16 2 w e st
+  | .prim .nat32 => dePrimExact .nat32 4 w e st | .prim .nat64 => dePrimExact .nat64 8 w e st
+  | .prim .int8 => dePrimExact .int8 1 w e st | .prim .int16 => dePrimExact .int16 2 w e st
+  | .prim .int32 => dePrimExact .int32 4 w e st | .prim .int64 => dePrimExact .int64 8 w e st
+  | .prim .float32 => dePrimExact .float32 4 w e st | .prim .float64 => dePrimExact .float64 8 w e st
+  | .prim .bool => dePrimExact .bool 1 w e st
+  | .prim .null => dePrimExact .null 1 w e st
+  | .prim .text =>
+    if w = .prim .text then
+      (lenBytes st).bind fun b s =>
+        match utf8 b with
+        | some str => .ok (.text str) s
+        | none => .err .malformed
+    else subErr st
+  | .prim .reserved =>
+    let skipped : R Val := if w ≠ .prim .reserved then dIgn w st else .ok .null st
+    skipped.bind fun _ s => (addCost s 1).map fun _ => .reserved
+  | .prim .empty => if w = .prim .empty then .err .malformed else subErr st
+  | .principal =>
+    (match w with
+     | .principal | .service _ => (dePrincipalBytes st).map Val.principal
+     | _ => subErr st)
+  | .opt e2 =>
+    (addCost st 1).bind fun _ s1 => deOptCase env fuel dRec w e2 s1
+  | .vec ee =>
+    if isBlobTy env e then deBlobCase env w st
+    else (addCost st 1).bind fun _ s1 => deVecCase env vis fuel dAny dIgn w ee s1
+  | .record efs =>
+    (addCost st 1).bind fun _ s1 =>
+      match w with
+      | .record wfs =>
+        dFld (mergeFields (efs.toList.length + wfs.toList.length + 1) efs.toList wfs.toList) s1 []
+      | _ => subErr s1
+  | .variant efs =>
+    (addCost st 1).bind fun _ s1 => deVariantCase vis dAny dIgn w efs s1
+  | .service _ =>
+    (checkSubtype env w e st).bind fun _ s1 =>
+      match w with
+      | .service _ => (dePrincipalBytes s1).map Val.service
+      | _ => subErr s1
+  | .func _ _ _ =>
+    (checkSubtype env w e st).bind fun _ s1 => deFuncCase w s1
+  | .future =>
+    (rd readLenDe st).bind fun n s1 =>
+      (addCost s1 (min (n + 1) usizeMax)).bind fun _ s2 =>
+        (rd readLenDe s2).bind fun _ s3 => (rd (takeN n) s3).map fun _ => .null
+  | _ => .err .other
+
 mutual
 /-- `deserialize_any` -/
 def deAny (env : Env) (vis : Visitor) : Nat → Ty → Ty → St → R Val
   | 0, _, _, _ => .err .limit
   | fuel + 1, w0, e0, st0 =>
     (unroll env fuel w0 e0 st0).bind fun (w, e) st =>
-      match e with
-      | .prim .int =>
-        (match w with
-         | .prim .int => bigNum intAs st
-         | .prim .nat => bigNum (natAs fun n => .int n) st
-         | _ => subErr st)
-      | .prim .nat => if w = .prim .nat then bigNum (natAs Val.nat) st else subErr st
-      | .prim .nat8 => dePrimExact .nat8 1 w e st | .prim .nat16 => dePrimExact .nat16 2 w e st
-      | .prim .nat32 => dePrimExact .nat32 4 w e st | .prim .nat64 => dePrimExact .nat64 8 w e st
-      | .prim .int8 => dePrimExact .int8 1 w e st | .prim .int16 => dePrimExact .int16 2 w e st
-      | .prim .int32 => dePrimExact .int32 4 w e st | .prim .int64 => dePrimExact .int64 8 w e st
-      | .prim .float32 => dePrimExact .float32 4 w e st | .prim .float64 => dePrimExact .float64 8 w e st
-      | .prim .bool => dePrimExact .bool 1 w e st
-      | .prim .null => dePrimExact .null 1 w e st
-      | .prim .text =>
-        if w = .prim .text then
-          (lenBytes st).bind fun b s =>
-            match utf8 b with
-            | some str => .ok (.text str) s
-            | none => .err .malformed
-        else subErr st
-      | .prim .reserved =>
-        let skipped : R Val := if w ≠ .prim .reserved then deIgnored env fuel w st else .ok .null st
-        skipped.bind fun _ s => (addCost s 1).map fun _ => .reserved
-      | .prim .empty => if w = .prim .empty then .err .malformed else subErr st
-      | .principal =>
-        (match w with
-         | .principal | .service _ => (dePrincipalBytes st).map Val.principal
-         | _ => subErr st)
-      | .opt e2 =>
-        (addCost st 1).bind fun _ s1 =>
-          match w with
-          | .prim .null | .prim .reserved => .ok .none s1
-          | .opt w2 =>
-            (match s1.input with
-             | [] => .err .eof
-             | b :: rest =>
-               if b = 0 then .ok .none { s1 with input := rest }
-               else if b = 1 then recoverable env vis fuel w2 e2 { s1 with input := rest }
-               else .err .malformed)
-          | _ =>
-            (match env.trace fuel e2 with
-             | none => .err .other
-             | some e2' => recoverable env vis fuel w e2' s1)
-      | .vec ee =>
-        if isBlobTy env e then
-          (if isBlobTy env w then (lenBytes st).map Val.blob
-           else match w with
-             | .vec _ =>
-               (rd readLenDe st).bind fun n s =>
-                 if n ≠ 0 then subErr s else (addCost s 1).map fun _ => .blob []
-             | _ => subErr st)
-        else
-          (addCost st 1).bind fun _ s1 =>
-            match w with
-            | .vec ww =>
-              (match env.trace fuel ww with
-               | none => .err .other
-               | some wire =>
-                 (rd readLenDe s1).bind fun n s2 =>
-                   match exactPrim ee wire with
-                   | some p =>
-                     let size := (primSize p).getD 1
-                     if n * (3 + size) > usizeMax then .err .other else
-                     (addCost s2 (n * (3 + size))).bind fun _ s3 =>
-                       if n * size > s3.input.length then .err .eof
-                       else (iterV (fun s => rd (decPrim p) s) n s3).map Val.vec
-                   | none =>
-                     let big : Option Prim := match ee, wire with
-                       | .prim .nat, .prim .nat => some .nat
-                       | .prim .int, .prim .int => some .int
-                       | .prim .int, .prim .nat => some .nat
-                       | _, _ => none
-                     match big with
-                     | some wp =>
-                       if n * 3 > usizeMax then .err .other else
-                       (addCost s2 (n * 3)).bind fun _ s3 =>
-                         (iterV (fun s =>
-                           if wp = .nat then bigNum (natAs fun m => if ee = .prim .int then .int m else .nat m) s
-                           else bigNum intAs s) n s3).map Val.vec
-                     | none =>
-                       (iterV (fun s => (addCost s 3).bind fun _ s' =>
-                         if vis = .ignored then deIgnored env fuel wire s' else deAny env vis fuel wire ee s') n s2).map Val.vec)
-            | _ => subErr s1
-      | .record efs =>
-        (addCost st 1).bind fun _ s1 =>
-          match w with
-          | .record wfs =>
-            deFields env vis fuel (mergeFields (efs.toList.length + wfs.toList.length + 1) efs.toList wfs.toList) s1 []
-          | _ => subErr s1
-      | .variant efs =>
-        (addCost st 1).bind fun _ s1 =>
-          match w with
-          | .variant wfs =>
-            (rd readLebCrate s1).bind fun idx s2 =>
-              match wfs.toList[idx]? with
-              | none => .err .malformed
-              | some (wl, wt) =>
-                match efs.toList.find? (fun p => p.1.getId = wl.getId) with
-                | none => subErr s2
-                | some (el, et) =>
-                  (addCost s2 4).bind fun _ s3 =>
-                    let keyCost := if s3.untyped then variantKeyLen el et else labelKeyCost el
-                    (addCost s3 keyCost).bind fun _ s4 =>
-                      let isUnit : Bool := match et with | .prim .null => true | _ => false
-                      if vis = .idl ∧ isUnit then
-                        -- unit_variant: check!(expect == Null && wire == Null)
-                        (if wt = .prim .null then (addCost s4 1).map fun _ => .variant el .null 0
-                         else subErr s4)
-                      else
-                        (addCost s4 1).bind fun _ s5 =>
-                          if vis = .ignored then (deIgnored env fuel wt s5).map fun _ => .null
-                          else (deAny env vis fuel wt et s5).map fun v => .variant el v 0
-          | _ => subErr s1
-      | .service _ =>
-        (checkSubtype env w e st).bind fun _ s1 =>
-          match w with
-          | .service _ => (dePrincipalBytes s1).map Val.service
-          | _ => subErr s1
-      | .func _ _ _ =>
-        (checkSubtype env w e st).bind fun _ s1 =>
-          match w with
-          | .func _ _ _ =>
-            (match s1.input with
-             | [] => .err .eof
-             | b :: rest =>
-               if b = 0 then .err .unsupported
-               else if b ≠ 1 then .err .malformed
-               else
-                 (rd readPrincipal { s1 with input := rest }).bind fun pid s2 =>
-                   (rd readLenDe s2).bind fun n s3 =>
-                     (rd (takeN n) s3).bind fun m s4 =>
-                       (addCost s4 (min (max 30 pid.length + n + 2) usizeMax)).bind fun _ s5 =>
-                         match utf8 m with
-                         | some name => .ok (.func pid name) s5
-                         | none => .err .malformed)
-          | _ => subErr s1
-      | .future =>
-        (rd readLenDe st).bind fun n s1 =>
-          (addCost s1 (min (n + 1) usizeMax)).bind fun _ s2 =>
-            (rd readLenDe s2).bind fun _ s3 => (rd (takeN n) s3).map fun _ => .null
-      | _ => .err .other
+      deAnyBody env vis fuel (deAny env vis fuel) (deIgnored env fuel) (recoverable env vis fuel) (deFields env vis fuel) w e st
 
 /-- `deserialize_ignored_any`: skip a value of the wire type (untyped accounting while skipping) -/
 def deIgnored (env : Env) : Nat → Ty → St → R Val
